@@ -1,1 +1,40 @@
 //! Verification hooks: `server` (thin pass-through wrappers; feature `verif-hooks` only).
+//!
+//! The internal rate-limited reader.
+
+use std::{
+    pin::Pin,
+    sync::Arc,
+    task::{Context, Poll},
+};
+
+use tokio::{io::AsyncRead, sync::watch};
+
+use crate::server::{
+    ClientRateLimit, Metrics,
+    streams::{InvalidBucketConfig, RateLimited},
+};
+
+/// The relay's internal rate-limited reader (`server::streams::RateLimited`), built the
+/// way `http_server::Inner::accept` builds it: from a watcher of the per-client limit.
+pub struct RateLimitedReader<S>(RateLimited<S>);
+
+/// Wraps `io`; also returns the watcher counting how often reads were rate-limited.
+pub fn rate_limited<S>(
+    io: S,
+    rate_limit_watcher: watch::Receiver<Option<ClientRateLimit>>,
+) -> Result<(RateLimitedReader<S>, watch::Receiver<u64>), InvalidBucketConfig> {
+    let inner = RateLimited::from_watcher(io, rate_limit_watcher, Arc::new(Metrics::default()))?;
+    let limited = inner.limited_watcher();
+    Ok((RateLimitedReader(inner), limited))
+}
+
+impl<S: AsyncRead + Unpin> AsyncRead for RateLimitedReader<S> {
+    fn poll_read(
+        mut self: Pin<&mut Self>,
+        cx: &mut Context<'_>,
+        buf: &mut tokio::io::ReadBuf<'_>,
+    ) -> Poll<std::io::Result<()>> {
+        Pin::new(&mut self.0).poll_read(cx, buf)
+    }
+}
